@@ -55,6 +55,13 @@ theorem sp_eprLoop (hp : Preserves B I Q) (mk : Option Int → QReq) (qarr : Opt
     · exact ⟨h1, hall⟩
     · exact ⟨h1, hall⟩
     · exact ⟨h1, hall⟩
+    · exact ⟨h1, hall⟩
+
+theorem sp_eprDone (key : Bool × Int × Int) {o : StepOut σ} (h : SP I Q o) : SP I Q (eprDone key o) := by
+  unfold eprDone
+  split
+  · exact h
+  · exact h
 
 theorem sp_instrStep (hp : Preserves B I Q) {s : St σ} (h : I s.q) (env : Env) (i : Instr) :
     SP I Q (instrStep B s env i) := by
@@ -64,7 +71,7 @@ theorem sp_instrStep (hp : Preserves B I Q) {s : St σ} (h : I s.q) (env : Env) 
     | exact sp_fail h _
     | exact sp_ofQ hp h _ _ _
     | exact sp_mk h _ _ _
-    | exact sp_eprLoop hp _ _ _ _ _ _ _ _ h (by simp)
+    | exact sp_eprDone _ (sp_eprLoop hp _ _ _ _ _ _ _ _ h (by simp))
 
 theorem runProg_inv (hp : Preserves B I Q) (prog : List Instr) :
     ∀ (fuel pc : Nat) (s : St σ) (env : Env) (rs : List Reply) (ops : List TOp), I s.q → (∀ op ∈ ops, Q op) →
@@ -95,6 +102,7 @@ theorem fromQ_inv (hp : Preserves B I Q) {s : St σ} (h : I s.q) (s0 : St σ) (r
   unfold fromQ
   split
   · exact ⟨by rw [hok]; exact h1, h2⟩
+  · exact ⟨h1, h2⟩
   · exact ⟨h1, h2⟩
   · exact ⟨h1, h2⟩
   · exact ⟨h1, h2⟩
@@ -146,7 +154,8 @@ end inv
 section sim
 variable {σ τ : Type} (B1 : Backend σ) (B2 : Backend τ) (f : σ → τ) (I : σ → Prop)
 
-def mapSt (s : St σ) : St τ := { app := s.app, socks := s.socks, peers := s.peers, cl := s.cl, q := f s.q }
+def mapSt (s : St σ) : St τ :=
+  { app := s.app, socks := s.socks, peers := s.peers, stale := s.stale, broken := s.broken, cl := s.cl, q := f s.q }
 
 /-- on the vanilla requests the second backend, started from the image of a good state, answers alike and
 ends in the image of the first one's state, which is good again -/
@@ -217,6 +226,7 @@ theorem sim_fromQ (hs : Simulates B1 B2 f I) {s : St σ} (h : I s.q) (s0 : St σ
   split
   · refine ⟨by rw [hokq]; exact h1, ?_, h3, rfl, h4, rfl⟩
     rw [h2]; exact hok { s0 with q := (B1.q s.q req env).st }
+  · exact ⟨h1, by simp [mapSt, h2], h3, rfl, h4, rfl⟩
   · exact ⟨h1, by simp [mapSt, h2], h3, rfl, h4, rfl⟩
   · exact ⟨h1, by simp [mapSt, h2], h3, rfl, h4, rfl⟩
   · exact ⟨h1, by simp [mapSt, h2], h3, rfl, h4, rfl⟩
